@@ -15,11 +15,12 @@
 # exit 0 iff every failing class is known, the harness reported a positive number of cases, and go test either
 # succeeded or failed because of failing classes (a build failure or a timeout is exit 1 with the output shown).
 
-if [ $# -ne 1 ] || [ -z "$1" ]; then
-	echo "usage: $0 <property id>" >&2
+if [ $# -lt 1 ] || [ -z "$1" ]; then
+	echo "usage: $0 <property id> [egrep pattern of the classes that matter for this property]" >&2
 	exit 2
 fi
 PROP=$1
+FILTER=${2:-.}
 REPO=${GOVC_REPO:-/repo}
 VERIF=${GOVC_VERIF:-/verif}
 KNOWN="$VERIF/known_findings.txt"
@@ -75,6 +76,8 @@ elif [ "$CLASSES" != "-" ]; then
 	for c in "$@"; do
 		[ -n "$c" ] || continue
 		NFAILING=$((NFAILING + 1))
+		# classes outside this property's concern are decided by the property that owns them
+		echo "$c" | grep -Eq "$FILTER" || continue
 		TEXT=
 		FOUND=1
 		if [ -f "$KNOWN" ]; then
